@@ -217,7 +217,8 @@ pub fn relevant(prop: &str, f: &Finding) -> bool {
         "C02" => {
             r.starts_with("CNT-") || r.starts_with("TIME-INSTANT") || r == "DECODE-FAILED" || r.starts_with("SCH-MISSING") || r.starts_with("SCH-UNEXPECTED") || r.starts_with("SCH-EXPLICIT") || r.starts_with("SCH-IMPLICIT") || r == "DER-TRUNCATED"
         }
-        "C04" => r.starts_with("DER-") || r.starts_with("SCH-DEFAULT-ENCODED") || r.starts_with("SCH-NAMEDBITS") || r.starts_with("SCH-TIME") || r.starts_with("TIME-TEXT") || r.starts_with("TIME-FORM") || r == "DECODE-FAILED",
+        // (caller-supplied pre-encoded DER - custom extension content, request attribute values - is embedded byte for byte)
+        "C04" => r.starts_with("DER-") || r.starts_with("SCH-DEFAULT-ENCODED") || r.starts_with("SCH-NAMEDBITS") || r.starts_with("SCH-TIME") || r.starts_with("TIME-TEXT") || r.starts_with("TIME-FORM") || r == "DECODE-FAILED" || r == "CNT-VALUE(attribute)" || r == "CNT-VALUE(custom)" || r == "CNT-MISSING(custom)",
         "C05" => r.starts_with("PRF-"),
         "C09" => r.starts_with("TIME-"),
         "C15" => r.starts_with("PURITY-"),
